@@ -301,7 +301,7 @@ theorem aLoad_sound {st : St Bs} {s s' : CState} (x a : Nat) (i : Lin)
         rw [hdef]
         exact nForget_sound x w h
 
-/-! ### array_assign (repaired version) -/
+/-! ### array_assign -/
 
 theorem setArr_self (s : CState) (a : Nat) : s.setArr a (s.ar a) = s := by
   cases s with
@@ -313,19 +313,19 @@ theorem setArr_self (s : CState) (a : Nat) : s.setArr a (s.ar a) = s := by
     · subst hb; simp
     · simp [hb]
 
-theorem aAssign_fixed_sound {st : St Bs} {s s' : CState} (lhs rhs : Nat)
+theorem aAssign_sound {st : St Bs} {s s' : CState} (lhs rhs : Nat)
     (h : γ esz st s) (hsz : esz lhs = esz rhs) (hr : cAssign lhs rhs s = some s') :
-    γ esz (aAssign true st lhs rhs) s' := by
+    γ esz (aAssign st lhs rhs) s' := by
   have hs' : s' = s.setArr lhs (s.ar rhs) := (Option.some.inj hr).symm
   subst hs'
   by_cases hlr : lhs = rhs
   · subst hlr
-    have : aAssign true st lhs lhs = st := by simp [aAssign]
+    have : aAssign st lhs lhs = st := by simp [aAssign]
     rw [this, setArr_self]; exact h
   · obtain ⟨g, hg⟩ := h
     cases hsize : st.env rhs with
     | none =>
-      have hdef : aAssign true st lhs rhs = ⟨setSize st.env lhs none, Bs.forget st.base (.smashed lhs)⟩ := by
+      have hdef : aAssign st lhs rhs = ⟨setSize st.env lhs none, Bs.forget st.base (.smashed lhs)⟩ := by
         simp [aAssign, hlr, hsize]
       rw [hdef]
       refine ⟨g, fun c => ?_⟩
@@ -344,7 +344,7 @@ theorem aAssign_fixed_sound {st : St Bs} {s s' : CState} (lhs rhs : Nat)
       show Bs.γ (Bs.forget st.base (.smashed lhs)) _
       rw [heq]; exact hf
     | some sz =>
-      have hdef : aAssign true st lhs rhs = ⟨setSize st.env lhs (some sz),
+      have hdef : aAssign st lhs rhs = ⟨setSize st.env lhs (some sz),
           Bs.expand (Bs.forget st.base (.smashed lhs)) (.smashed rhs) (.smashed lhs)⟩ := by
         simp [aAssign, hlr, hsize]
       rw [hdef]
